@@ -62,7 +62,7 @@ class DM14Server:
         ):
             self._ca.unsubscribe(self._parse_dm16)
             self._send_dm16()
-            if (len(self.data)) <= 8:
+            if (len(self.data)) <= 7:
                 self.proceed = True
                 self.state = ResponseState.SEND_OPERATION_COMPLETE
                 self._ca.subscribe(self.parse_dm14)
@@ -236,7 +236,7 @@ class DM14Server:
             data.append(self.data[i])
 
         data.extend([0xFF] * (self.length - byte_count - 1))
-        if byte_count > 8:
+        if byte_count > 7:
             self._ca.subscribe(self._parse_dm16)
         self._ca.send_pgn(0, (self._pgn >> 8) & 0xFF, self.sa & 0xFF, 7, data)
 
